@@ -95,7 +95,9 @@ func main() {
 			continue
 		}
 		j.Write(proto.Rec{T: "start", Idx: idx, ID: fmt.Sprintf("%s/%s/%d/%d", *prop, *tier, *seed, idx)})
+		tc := time.Now()
 		rec := runCase(eng, *prop, *tier, *seed, idx)
+		rec.Ms = time.Since(tc).Milliseconds()
 		rec.T = "end"
 		rec.Idx = idx
 		if rec.ID == "" {
